@@ -17,7 +17,6 @@ import (
 	"go/types"
 	"os"
 	"path/filepath"
-	"sort"
 	"strings"
 )
 
@@ -97,12 +96,13 @@ func main() {
 		fmt.Fprintln(os.Stderr, "lockfacts:", err)
 		os.Exit(1)
 	}
-	if err := os.WriteFile(os.Args[1], []byte(coqFile(facts)), 0o644); err != nil {
+	text, names := coqFile(facts)
+	if err := os.WriteFile(os.Args[1], []byte(text), 0o644); err != nil {
 		fmt.Fprintln(os.Stderr, err)
 		os.Exit(1)
 	}
 	if len(os.Args) > 2 {
-		b, _ := json.MarshalIndent(facts, "", " ")
+		b, _ := json.MarshalIndent(map[string]any{"names": names, "facts": facts}, "", " ")
 		if err := os.WriteFile(os.Args[2], b, 0o644); err != nil {
 			fmt.Fprintln(os.Stderr, err)
 			os.Exit(1)
@@ -112,19 +112,20 @@ func main() {
 
 // ---- Coq output ------------------------------------------------------------
 
+// Identifiers are interned: id 0 is reserved ("does not occur"), ids are given
+// in order of first use.
 type namer struct {
-	ids   map[string]string
+	ids   map[string]int
 	order []string
 }
 
 func (n *namer) id(s string) string {
 	if v, ok := n.ids[s]; ok {
-		return v
+		return fmt.Sprint(v)
 	}
-	v := fmt.Sprintf("s%d", len(n.order))
-	n.ids[s] = v
 	n.order = append(n.order, s)
-	return v
+	n.ids[s] = len(n.order)
+	return fmt.Sprint(len(n.order))
 }
 
 func strLit(s string) string {
@@ -138,8 +139,16 @@ func strLit(s string) string {
 	return "[" + strings.Join(parts, ";") + "]"
 }
 
-func coqFile(facts []Fact) string {
-	n := &namer{ids: map[string]string{}}
+func heldText(h []Held) string {
+	xs := []string{}
+	for _, x := range h {
+		xs = append(xs, x.St+"."+x.Fld+":"+x.Mode)
+	}
+	return strings.Join(xs, ",")
+}
+
+func coqFile(facts []Fact) (string, []string) {
+	n := &namer{ids: map[string]int{}}
 	held := func(h []Held) string {
 		xs := []string{}
 		for _, x := range h {
@@ -155,50 +164,63 @@ func coqFile(facts []Fact) string {
 	var lines []string
 	for _, f := range facts {
 		pos := fmt.Sprintf("(%s, %d)", n.id(f.File), f.Line)
-		var l string
+		at := fmt.Sprintf("%s:%d", f.File, f.Line)
+		var l, c string
 		switch f.Kind {
 		case "func":
 			l = fmt.Sprintf("FFunc %s %s", n.id(f.F), pos)
+			c = "func " + f.F
 		case "root":
 			l = fmt.Sprintf("FRoot %s %s", n.id(f.F), n.id(f.Why))
+			c = "root " + f.F + " (" + f.Why + ")"
 		case "access":
 			rw := "Rd"
 			if f.RW == "W" {
 				rw = "Wr"
 			}
 			l = fmt.Sprintf("FAccess %s %s %s %s %s %s %s", n.id(f.F), n.id(f.St), n.id(f.Fld), rw, held(f.Held), base[f.Base], pos)
+			c = fmt.Sprintf("%s: %s %s.%s [%s] %s %s", f.F, f.RW, f.St, f.Fld, heldText(f.Held), f.Base, at)
 		case "call":
 			l = fmt.Sprintf("FCall %s %s %s %s %s", n.id(f.F), n.id(f.G), held(f.Held), base[f.Base], pos)
+			c = fmt.Sprintf("%s -> %s [%s] %s %s", f.F, f.G, heldText(f.Held), f.Base, at)
 		case "go":
 			l = fmt.Sprintf("FGo %s %s %s", n.id(f.F), n.id(f.G), pos)
+			c = fmt.Sprintf("%s: go %s %s", f.F, f.G, at)
 		case "acquire":
 			m := "LW"
 			if f.RW == "R" {
 				m = "LR"
 			}
 			l = fmt.Sprintf("FAcquire %s (%s, %s) %s %s %s", n.id(f.F), n.id(f.St), n.id(f.Fld), m, held(f.Held), pos)
+			c = fmt.Sprintf("%s: acquire %s.%s:%s [%s] %s", f.F, f.St, f.Fld, f.RW, heldText(f.Held), at)
 		case "chan":
 			op := map[string]string{"send": "ChSend", "recv": "ChRecv", "close": "ChClose"}[f.RW]
 			l = fmt.Sprintf("FChan %s %s %s %s %s %s", n.id(f.F), op, n.id(f.St), n.id(f.Fld), held(f.Held), pos)
+			c = fmt.Sprintf("%s: %s %s.%s [%s] %s", f.F, f.RW, f.St, f.Fld, heldText(f.Held), at)
 		case "sync":
 			l = fmt.Sprintf("FSync %s %s %s %s", n.id(f.F), n.id(f.RW), n.id(f.Why), pos)
+			c = fmt.Sprintf("%s: sync %s %s %s", f.F, f.RW, f.Why, at)
 		case "unbalanced":
 			l = fmt.Sprintf("FUnbalanced %s (%s, %s) %s", n.id(f.F), n.id(f.St), n.id(f.Fld), pos)
+			c = fmt.Sprintf("%s: unbalanced %s.%s (%s) %s", f.F, f.St, f.Fld, f.Why, at)
 		default:
 			panic("unknown fact kind " + f.Kind)
 		}
-		lines = append(lines, "  "+l)
+		lines = append(lines, fmt.Sprintf("  (* %s *)\n  %s", strings.ReplaceAll(c, "*)", "* )"), l))
 	}
 	var b strings.Builder
-	b.WriteString("(* GENERATED by /verif/harness/lockfacts from internal/server — do not edit. *)\n")
-	b.WriteString("From KP Require Import model.Base model.Locks.\n\n")
+	b.WriteString("(* GENERATED by /verif/harness/lockfacts from internal/server -- do not edit. *)\n")
+	b.WriteString("From KP Require Import model.Base model.Locks.\nLocal Open Scope N_scope.\n\n")
+	b.WriteString("Definition names : names := [\n")
 	for i, s := range n.order {
-		fmt.Fprintf(&b, "Definition s%d : str := %s. (* %s *)\n", i, strLit(s), strings.ReplaceAll(s, "*)", "* )"))
+		sep := ";"
+		if i == len(n.order)-1 {
+			sep = ""
+		}
+		fmt.Fprintf(&b, "  (%d, %s)%s (* %s *)\n", i+1, strLit(s), sep, strings.ReplaceAll(s, "*)", "* )"))
 	}
-	b.WriteString("\nDefinition facts : list fact := [\n")
+	b.WriteString("].\n\nDefinition facts : list fact := [\n")
 	b.WriteString(strings.Join(lines, ";\n"))
 	b.WriteString("\n].\n")
-	return b.String()
+	return b.String(), n.order
 }
-
-var _ = sort.Strings
